@@ -2,6 +2,7 @@ package checks
 
 import (
 	"fmt"
+	"os"
 	"strings"
 
 	"go/types"
@@ -17,59 +18,109 @@ import (
 
 func init() { register("C19", "other", false, c19) }
 
-// The commands are summarised with the buffered writer as an event sink:
-//   out.byte(c)            one byte
-//   out.write[n](b0..bn-1) a write of n bytes with known contents
-//   out.write:<handle>(len) a write of a whole opaque byte slice
-//   out.flush
-// Library calls are modelled by a whitelist resolved by callee object.
+// The commands are summarised with the output file as a byte sink.  Every
+// write - buffered or direct, byte-wise, slice-wise, of a string, of the result
+// of append - is flattened into the stream items
+//   out.b(c)                  one byte
+//   out.chunk:<handle>(lo,n)  a whole window of an opaque byte slice (the image)
+// plus out.flush / out.close markers.  The stream is compared on the path where
+// every library call succeeds (the property speaks about what is emitted, not
+// about error handling).  Library calls are modelled by a whitelist resolved by
+// callee object; flags are named by their command-line name, not by the Go
+// variable that holds them.
 
 type cmdRun struct {
-	c      *dom.Ctx
-	tr     *dom.Trace
-	err    error
-	nerr   int
-	in     *absint.Interp
-	unseen []string
+	c       *dom.Ctx
+	tr      *dom.Trace
+	err     error
+	nerr    int
+	in      *absint.Interp
+	unseen  []string
+	errNils []bdd.Node
 }
 
 func (cr *cmdRun) newErr(c *dom.Ctx, callee string) *absint.Iface {
 	cr.nerr++
 	name := fmt.Sprintf("err#%d(%s)", cr.nerr, callee)
-	return &absint.Iface{Sym: name, Nil: c.Atom("IsNil("+name+")", 1)[0]}
+	n := c.Atom("IsNil("+name+")", 1)[0]
+	cr.errNils = append(cr.errNils, n)
+	return &absint.Iface{Sym: name, Nil: n}
 }
 
-func errNil(c *dom.Ctx, n int, callee string) bdd.Node {
-	return c.Atom(fmt.Sprintf("IsNil(err#%d(%s))", n, callee), 1)[0]
+// success is the path condition "every modelled library call returned a nil error".
+func (cr *cmdRun) success() bdd.Node {
+	g := bdd.True
+	for _, n := range cr.errNils {
+		g = cr.c.M.And(g, n)
+	}
+	return g
 }
 
-func writeEvent(in *absint.Interp, st *absint.State, tr *dom.Trace, guard bdd.Node, v absint.Value, pos string) bool {
-	sl, ok := v.(*absint.Slice)
+const maxVarWrite = 16
+
+// boundOf: the smallest N <= maxVarWrite with length <= N on every path
+// (under the guard and the run's assumption), or -1.
+func boundOf(in *absint.Interp, guard bdd.Node, length dom.BV) int {
+	C := in.C
+	g := guard
+	if in.HasAssume {
+		g = C.M.And(g, in.Assume)
+	}
+	neg := length[len(length)-1]
+	for n := 0; n <= maxVarWrite; n++ {
+		over := C.M.And(C.M.Not(neg), C.Ult(C.Const(len(length), uint64(n)), length))
+		if C.M.And(g, over) == bdd.False {
+			return n
+		}
+	}
+	return -1
+}
+
+// emitBytes flattens one write into stream items on device dev.
+func emitBytes(in *absint.Interp, st *absint.State, tr *dom.Trace, guard bdd.Node, dev string, v absint.Value, pos string) bool {
+	segs, ok := in.RopeOf(st, v)
 	if !ok {
 		return false
 	}
-	if sl.Sym != "" {
-		if sl.LoV != nil || sl.Lo != 0 {
-			return false
+	C := in.C
+	w := int(in.P.Sizes.Sizeof(types.Typ[types.Int])) * 8
+	byteT := types.Typ[types.Uint8]
+	for _, sg := range segs {
+		switch {
+		case sg.Bytes != nil:
+			for _, b := range sg.Bytes {
+				tr.Emit(guard, "out.b", dev, []dom.BV{b}, 0, pos)
+			}
+		case sg.Fill != nil:
+			n := boundOf(in, guard, sg.Len)
+			if n < 0 {
+				return false
+			}
+			for i := 0; i < n; i++ {
+				tr.Emit(C.M.And(guard, C.Slt(C.Const(len(sg.Len), uint64(i)), sg.Len)), "out.b", dev, []dom.BV{sg.Fill}, 0, pos)
+			}
+		default:
+			if n := boundOf(in, guard, sg.Len); n >= 0 {
+				for i := 0; i < n; i++ {
+					b, ok := in.SymElem(st, sg.Sym, sg.Lo+i, byteT).(dom.BV)
+					if !ok {
+						return false
+					}
+					tr.Emit(C.M.And(guard, C.Slt(C.Const(len(sg.Len), uint64(i)), sg.Len)), "out.b", dev, []dom.BV{b}, 0, pos)
+				}
+				continue
+			}
+			tr.Emit(guard, "out.chunk:"+sg.Sym, dev, []dom.BV{C.Const(w, uint64(sg.Lo)), sg.Len}, 0, pos)
 		}
-		tr.Emit(guard, "out.write:"+sl.Sym, "w", []dom.BV{sl.Len}, 0, pos)
-		return true
 	}
-	n, isc := sl.Len.IsConst()
-	if !isc || n > 64 {
-		return false
-	}
-	var args []dom.BV
-	for i := 0; i < int(n); i++ {
-		ev, ok := st.Get(sl.Root, fmt.Sprintf("%s[%d]", sl.Path, sl.Lo+i))
-		bv, ok2 := ev.(dom.BV)
-		if !ok || !ok2 {
-			bv = in.C.Const(8, 0)
-		}
-		args = append(args, bv)
-	}
-	tr.Emit(guard, fmt.Sprintf("out.write[%d]", n), "w", args, 0, pos)
 	return true
+}
+
+func strConst(v absint.Value) (string, bool) {
+	if s, ok := v.(*absint.Str); ok && s.Const != nil {
+		return *s.Const, true
+	}
+	return "", false
 }
 
 // runCommand interprets init() then run() of a command package.
@@ -92,14 +143,63 @@ func runCommand(cx *Ctx, pkgPath string, assume func(c *dom.Ctx) bdd.Node) *cmdR
 	in.NoGlobalEvents = true
 	cr.c, cr.tr, cr.in = c, tr, in
 	st := absint.NewState()
+	iw := int(cx.P.Sizes.Sizeof(types.Typ[types.Int])) * 8
 	noop := func(in *absint.Interp, args []absint.Value, guard bdd.Node, st *absint.State, pos string) (absint.Value, bool) {
 		return nil, true
 	}
+	// flags: the value is named after the flag, wherever the program keeps it
+	flagStr := func(name string) absint.Value {
+		n := "flag -" + name
+		return &absint.Str{Sym: n, Len: c.Zext(c.Atom("len("+n+")", iw-1), iw)}
+	}
+	flagInt := func(name string, w int) absint.Value { return c.Atom("Init(flag -"+name+")", w) }
+	flagVar := func(mk func(name string) absint.Value, t types.Type) absint.ModelFunc {
+		return func(in *absint.Interp, args []absint.Value, guard bdd.Node, st *absint.State, pos string) (absint.Value, bool) {
+			name, ok := strConst(args[1])
+			if !ok {
+				return nil, false
+			}
+			in.Store(st, args[0], t, mk(name), bdd.True, 0)
+			return nil, true
+		}
+	}
+	ncell := 0
+	flagNew := func(mk func(name string) absint.Value, t types.Type) absint.ModelFunc {
+		return func(in *absint.Interp, args []absint.Value, guard bdd.Node, st *absint.State, pos string) (absint.Value, bool) {
+			name, ok := strConst(args[0])
+			if !ok {
+				return nil, false
+			}
+			ncell++
+			root := fmt.Sprintf("flagcell#%d(%s)", ncell, name)
+			in.AddConcreteRoot(root)
+			p := &absint.Ptr{Root: root, Nil: bdd.False}
+			in.Store(st, p, t, mk(name), bdd.True, 0)
+			return p, true
+		}
+	}
+	uintW := int(cx.P.Sizes.Sizeof(types.Typ[types.Uint])) * 8
+	mkUint := func(name string) absint.Value { return flagInt(name, uintW) }
+	mkInt := func(name string) absint.Value { return flagInt(name, iw) }
+	isFile := func(v absint.Value) bool { p, ok := v.(*absint.Ptr); return ok && p.Root == "osfile" }
+	isBuf := func(v absint.Value) bool { p, ok := v.(*absint.Ptr); return ok && p.Root == "bufio.Writer" }
+	write := func(isDev func(absint.Value) bool, dev, callee string, tuple bool) absint.ModelFunc {
+		return func(in *absint.Interp, args []absint.Value, guard bdd.Node, st *absint.State, pos string) (absint.Value, bool) {
+			if !isDev(args[0]) || !emitBytes(in, st, tr, guard, dev, args[1], pos) {
+				return nil, false
+			}
+			if !tuple {
+				return cr.newErr(c, callee), true
+			}
+			return &absint.Tuple{Elems: []absint.Value{c.Atom(fmt.Sprintf("n#%d", cr.nerr+1), iw), cr.newErr(c, callee)}}, true
+		}
+	}
 	in.Models = map[string]absint.ModelFunc{
-		"flag.StringVar": noop, "flag.UintVar": noop, "flag.IntVar": noop, "flag.BoolVar": noop, "flag.Parse": noop,
-		"bufio.init": noop, "flag.init": noop, "io.init": noop, "log.init": noop, "os.init": noop, "fmt.init": noop, "errors.init": noop,
+		"flag.StringVar": flagVar(flagStr, types.Typ[types.String]), "flag.UintVar": flagVar(mkUint, types.Typ[types.Uint]), "flag.IntVar": flagVar(mkInt, types.Typ[types.Int]),
+		"flag.String": flagNew(flagStr, types.Typ[types.String]), "flag.Uint": flagNew(mkUint, types.Typ[types.Uint]), "flag.Int": flagNew(mkInt, types.Typ[types.Int]),
+		"flag.BoolVar": noop, "flag.Parse": noop,
+		"bufio.init": noop, "flag.init": noop, "io.init": noop, "log.init": noop, "os.init": noop, "fmt.init": noop, "errors.init": noop, "bytes.init": noop, "encoding/binary.init": noop,
 		"os.ReadFile": func(in *absint.Interp, args []absint.Value, guard bdd.Node, st *absint.State, pos string) (absint.Value, bool) {
-			iw := int(cx.P.Sizes.Sizeof(types.Typ[types.Int])) * 8
 			return &absint.Tuple{Elems: []absint.Value{
 				&absint.Slice{Sym: "file", Nil: bdd.False, Len: c.Zext(c.Atom("len(file)", iw-1), iw)},
 				cr.newErr(c, "os.ReadFile")}}, true
@@ -108,48 +208,75 @@ func runCommand(cx *Ctx, pkgPath string, assume func(c *dom.Ctx) bdd.Node) *cmdR
 			in.AddSymbolicRoot("osfile", "osfile.")
 			return &absint.Tuple{Elems: []absint.Value{&absint.Ptr{Root: "osfile", Nil: bdd.False}, cr.newErr(c, "os.Create")}}, true
 		},
-		"bufio.NewWriter": func(in *absint.Interp, args []absint.Value, guard bdd.Node, st *absint.State, pos string) (absint.Value, bool) {
-			iv, ok := args[0].(*absint.Iface)
-			if !ok || iv.Conc == nil {
+		"os.WriteFile": func(in *absint.Interp, args []absint.Value, guard bdd.Node, st *absint.State, pos string) (absint.Value, bool) {
+			if !emitBytes(in, st, tr, guard, "f", args[1], pos) {
 				return nil, false
 			}
-			if p, ok := iv.Conc.(*absint.Ptr); !ok || p.Root != "osfile" {
+			tr.Emit(guard, "out.close", "f", nil, 0, pos)
+			return cr.newErr(c, "os.WriteFile"), true
+		},
+		"bufio.NewWriter": func(in *absint.Interp, args []absint.Value, guard bdd.Node, st *absint.State, pos string) (absint.Value, bool) {
+			iv, ok := args[0].(*absint.Iface)
+			if !ok || iv.Conc == nil || !isFile(iv.Conc) {
 				return nil, false
 			}
 			in.AddSymbolicRoot("bufio.Writer", "bufio.Writer.")
 			return &absint.Ptr{Root: "bufio.Writer", Nil: bdd.False}, true
 		},
 		"(*bufio.Writer).WriteByte": func(in *absint.Interp, args []absint.Value, guard bdd.Node, st *absint.State, pos string) (absint.Value, bool) {
-			if p, ok := args[0].(*absint.Ptr); !ok || p.Root != "bufio.Writer" {
-				return nil, false
-			}
 			bv, ok := args[1].(dom.BV)
-			if !ok {
+			if !isBuf(args[0]) || !ok {
 				return nil, false
 			}
-			tr.Emit(guard, "out.byte", "w", []dom.BV{bv}, 0, pos)
+			tr.Emit(guard, "out.b", "w", []dom.BV{bv}, 0, pos)
 			return cr.newErr(c, "WriteByte"), true
 		},
-		"(*bufio.Writer).Write": func(in *absint.Interp, args []absint.Value, guard bdd.Node, st *absint.State, pos string) (absint.Value, bool) {
-			if p, ok := args[0].(*absint.Ptr); !ok || p.Root != "bufio.Writer" {
-				return nil, false
-			}
-			if !writeEvent(in, st, tr, guard, args[1], pos) {
-				return nil, false
-			}
-			return &absint.Tuple{Elems: []absint.Value{c.Atom(fmt.Sprintf("n#%d", cr.nerr+1), 64), cr.newErr(c, "Write")}}, true
-		},
+		"(*bufio.Writer).Write":       write(isBuf, "w", "Write", true),
+		"(*bufio.Writer).WriteString": write(isBuf, "w", "WriteString", true),
+		"(*os.File).Write":            write(isFile, "f", "Write", true),
+		"(*os.File).WriteString":      write(isFile, "f", "WriteString", true),
 		"(*bufio.Writer).Flush": func(in *absint.Interp, args []absint.Value, guard bdd.Node, st *absint.State, pos string) (absint.Value, bool) {
-			if p, ok := args[0].(*absint.Ptr); !ok || p.Root != "bufio.Writer" {
+			if !isBuf(args[0]) {
 				return nil, false
 			}
 			tr.Emit(guard, "out.flush", "w", nil, 0, pos)
 			return cr.newErr(c, "Flush"), true
 		},
+		"(*os.File).Close": func(in *absint.Interp, args []absint.Value, guard bdd.Node, st *absint.State, pos string) (absint.Value, bool) {
+			if !isFile(args[0]) {
+				return nil, false
+			}
+			tr.Emit(guard, "out.close", "f", nil, 0, pos)
+			return cr.newErr(c, "Close"), true
+		},
+		"bytes.Repeat": func(in *absint.Interp, args []absint.Value, guard bdd.Node, st *absint.State, pos string) (absint.Value, bool) {
+			segs, ok := in.RopeOf(st, args[0])
+			cnt, ok2 := args[1].(dom.BV)
+			if !ok || !ok2 || len(segs) != 1 || len(segs[0].Bytes) != 1 {
+				return nil, false
+			}
+			if k, isc := cnt.IsConst(); isc && k <= 256 {
+				var bs []dom.BV
+				for i := 0; i < int(k); i++ {
+					bs = append(bs, segs[0].Bytes[0])
+				}
+				return &absint.Slice{Nil: bdd.False, Len: cnt, Rope: []absint.Seg{{Bytes: bs}}}, true
+			}
+			return &absint.Slice{Nil: bdd.False, Len: cnt, Rope: []absint.Seg{{Fill: segs[0].Bytes[0], Len: cnt}}}, true
+		},
+	}
+	in.InterpretExternal = map[string]bool{
+		"(encoding/binary.littleEndian).PutUint16": true, "(encoding/binary.bigEndian).PutUint16": true,
+		"(encoding/binary.littleEndian).AppendUint16": true, "(encoding/binary.bigEndian).AppendUint16": true,
 	}
 	// package initialisation builds the constant tables (it has not run yet)
-	if g := sp.Var("init$guard"); g != nil {
-		in.InitOverride["global:"+g.RelString(nil)+"|"] = c.Const(1, 0)
+	// (neither has that of any module package it imports)
+	for _, pk := range cx.P.Prog.AllPackages() {
+		if pk.Pkg != nil && strings.HasPrefix(pk.Pkg.Path(), load.ModulePath) {
+			if g := pk.Var("init$guard"); g != nil {
+				in.InitOverride["global:"+g.RelString(nil)+"|"] = c.Const(1, 0)
+			}
+		}
 	}
 	_, st1, err := in.Run(initf, nil, st)
 	if err != nil {
@@ -175,56 +302,63 @@ func runCommand(cx *Ctx, pkgPath string, assume func(c *dom.Ctx) bdd.Node) *cmdR
 
 func describeCmdEvents(c *dom.Ctx, t *dom.Trace) []string {
 	var out []string
-	for i := range t.Events {
-		if strings.HasPrefix(t.Events[i].Kind, "out.") {
-			out = append(out, c.DescribeEvent(&t.Events[i]))
+	run := 0
+	flushRun := func() {
+		if run > 0 {
+			out = append(out, fmt.Sprintf("... %d more bytes", run))
+			run = 0
 		}
 	}
+	n := 0
+	for i := range t.Events {
+		if !strings.HasPrefix(t.Events[i].Kind, "out.") {
+			continue
+		}
+		n++
+		if n > 40 && t.Events[i].Kind == "out.b" {
+			run++
+			continue
+		}
+		flushRun()
+		out = append(out, c.DescribeEvent(&t.Events[i]))
+	}
+	flushRun()
 	return out
 }
 
-func keepOut(e *dom.Event) bool { return strings.HasPrefix(e.Kind, "out.") }
+func keepStream(e *dom.Event) bool {
+	return e.Kind == "out.b" || strings.HasPrefix(e.Kind, "out.chunk:")
+}
 
 type refStream struct {
-	c  *dom.Ctx
-	tr *dom.Trace
-	g  bdd.Node
-	n  int
+	c   *dom.Ctx
+	tr  *dom.Trace
+	g   bdd.Node
+	dev string // the sink the implementation uses (buffered writer or the file itself)
 }
 
-func (rs *refStream) after(callee string) {
-	rs.n++
-	rs.g = rs.c.M.And(rs.g, errNil(rs.c, rs.n, callee))
-}
+func (rs *refStream) b(v dom.BV) { rs.tr.Emit(rs.g, "out.b", rs.dev, []dom.BV{v}, 0, "ref") }
 
 func (rs *refStream) u16(v dom.BV) {
-	rs.tr.Emit(rs.g, "out.write[2]", "w", []dom.BV{v.Slice(0, 8), v.Slice(8, 16)}, 0, "ref")
-	rs.after("Write")
+	rs.b(v.Slice(0, 8))
+	rs.b(v.Slice(8, 16))
 }
 
 func (rs *refStream) consts(bs ...byte) {
-	var args []dom.BV
 	for _, b := range bs {
-		args = append(args, rs.c.Const(8, uint64(b)))
+		rs.b(rs.c.Const(8, uint64(b)))
 	}
-	rs.tr.Emit(rs.g, fmt.Sprintf("out.write[%d]", len(bs)), "w", args, 0, "ref")
-	rs.after("Write")
 }
 
-func globalAtom(c *dom.Ctx, name string, w int) dom.BV { return c.Atom("Init(global "+name+")", w) }
-
-// refCommon emits the start/end/exec words and the body.
-func (rs *refStream) tail(intW int) {
+// tail emits the start/end/exec words and the body.
+func (rs *refStream) tail(intW, uintW int) {
 	c := rs.c
-	off := c.Trunc(globalAtom(c, "off0", intW), 16)
+	off := c.Trunc(c.Atom("Init(flag -off)", uintW), 16)
 	flen := c.Zext(c.Atom("len(file)", intW-1), intW)
 	rs.u16(off)
 	rs.u16(c.AddK(c.Add(off, c.Trunc(flen, 16)), -1))
 	rs.u16(off)
-	rs.tr.Emit(rs.g, "out.write:file", "w", []dom.BV{flen}, 0, "ref")
-	rs.after("Write")
-	rs.tr.Emit(rs.g, "out.flush", "w", nil, 0, "ref")
-	rs.after("Flush")
+	rs.tr.Emit(rs.g, "out.chunk:file", rs.dev, []dom.BV{c.Const(intW, 0), flen}, 0, "ref")
 }
 
 func cmdCompare(cx *Ctx, r *ev.Report, key, rule string, cr *cmdRun, build func(rs *refStream), fnPos string) {
@@ -233,15 +367,61 @@ func cmdCompare(cx *Ctx, r *ev.Report, key, rule string, cr *cmdRun, build func(
 		return
 	}
 	c := cr.c
-	rs := &refStream{c: c, tr: dom.NewTrace(c), g: bdd.True}
+	M := c.M
+	care := cr.success()
 	if cr.in.HasAssume {
-		rs.g = cr.in.Assume
+		care = M.And(care, cr.in.Assume)
 	}
-	rs.after("os.ReadFile")
-	rs.after("os.Create")
-	build(rs)
 	var det []string
-	for _, d := range c.DiffSequence(cr.tr.SequenceChar(keepOut), rs.tr.SequenceChar(keepOut)) {
+	// one sink: either everything goes through the buffered writer, or everything directly to the file
+	devs := map[string]bool{}
+	lastWrite, lastFlush, firstClose := -1, -1, -1
+	for i := range cr.tr.Events {
+		e := &cr.tr.Events[i]
+		if M.And(e.Guard, care) == bdd.False {
+			continue
+		}
+		switch {
+		case keepStream(e):
+			devs[e.Dev] = true
+			lastWrite = i
+			if firstClose >= 0 {
+				det = append(det, "bytes are written after the file was closed: "+c.DescribeEvent(e))
+			}
+		case e.Kind == "out.flush":
+			lastFlush = i
+			if firstClose >= 0 {
+				det = append(det, "the buffer is flushed after the file was closed")
+			}
+		case e.Kind == "out.close" && firstClose < 0:
+			firstClose = i
+		}
+	}
+	if len(devs) > 1 {
+		r.Undecide(key, rule, fnPos, "buffered and direct writes to the output are mixed: their order in the file is not modelled")
+		return
+	}
+	rs := &refStream{c: c, tr: dom.NewTrace(c), g: bdd.True, dev: "w"}
+	if devs["f"] {
+		rs.dev = "f"
+	}
+	build(rs)
+	if devs["w"] {
+		switch {
+		case lastFlush < lastWrite:
+			det = append(det, "buffered bytes are not flushed after the last write: the tail of the container never reaches the file")
+		case M.And(care, M.Not(cr.tr.Events[lastFlush].Guard)) != bdd.False:
+			det = append(det, "the final Flush is not executed on every successful path")
+		}
+	}
+	if os.Getenv("VERIF_DEBUG") != "" {
+		for _, l := range describeCmdEvents(c, cr.tr) {
+			fmt.Fprintln(os.Stderr, "impl:", l)
+		}
+	}
+	cr.tr.SetCare(care)
+	rs.tr.SetCare(care)
+	for _, d := range c.DiffSequence(cr.tr.SequenceChar(keepStream), rs.tr.SequenceChar(keepStream)) {
 		det = append(det, "output stream: "+d)
 	}
 	for _, u := range cr.unseen {
@@ -271,15 +451,15 @@ func c19(cx *Ctx, r *ev.Report) {
 		}
 		return "-"
 	}
-	ruleB := "STREAM-EQ(cim2bin): on the path where every error is nil the writer receives exactly 0xFE, U16(off), U16(off+len-1), U16(off), the very byte slice ReadFile returned, Flush - in this order; after any error nothing more is written; U16(v) = v[7:0], v[15:8]"
+	uintW := int(cx.P.Sizes.Sizeof(types.Typ[types.Uint])) * 8
+	ruleB := "STREAM-EQ(cim2bin): on the path where every library call succeeds the bytes that reach the output file are exactly 0xFE, U16(off), U16(off+len-1), U16(off), then the very byte slice ReadFile returned (whatever the grouping into writes), and a buffered writer is flushed after the last write and before the file is closed; U16(v) = v[7:0], v[15:8]; off = the -off flag truncated to 16 bits"
 	bin := runCommand(cx, binPkg, nil)
 	cmdCompare(cx, r, "C19/sequence/cmd=cim2bin", ruleB, bin, func(rs *refStream) {
-		rs.tr.Emit(rs.g, "out.byte", "w", []dom.BV{rs.c.Const(8, 0xFE)}, 0, "ref")
-		rs.after("WriteByte")
-		rs.tail(intW)
+		rs.consts(0xFE)
+		rs.tail(intW, uintW)
 	}, posOf(binPkg))
 
-	ruleC := "STREAM-EQ(cim2cas): sync header 1F A6 DE BA CC 13 7D 74, ten D0, the name as six bytes (byte i = i < len(name) ? name[i] : 0x20), the sync header again, U16(off), U16(off+len-1), U16(off), the unmodified image, Flush; nothing after an error"
+	ruleC := "STREAM-EQ(cim2cas): sync header 1F A6 DE BA CC 13 7D 74, ten D0, the name as six bytes (byte i = i < len(name) ? name[i] : 0x20), the sync header again, U16(off), U16(off+len-1), U16(off), the unmodified image - as the bytes that reach the file on the path where every library call succeeds, whatever the grouping into writes; a buffered writer is flushed after the last write"
 	header := []byte{0x1f, 0xa6, 0xde, 0xba, 0xcc, 0x13, 0x7d, 0x74}
 	for _, variant := range []struct {
 		name   string
@@ -287,10 +467,10 @@ func c19(cx *Ctx, r *ev.Report) {
 		assume func(c *dom.Ctx) bdd.Node
 	}{
 		{"name-given", "nam", func(c *dom.Ctx) bdd.Node {
-			return c.M.Not(c.IsZero(c.Zext(c.Atom("len(global nam)", intW-1), intW)))
+			return c.M.Not(c.IsZero(c.Zext(c.Atom("len(flag -nam)", intW-1), intW)))
 		}},
 		{"name-empty", "cim", func(c *dom.Ctx) bdd.Node {
-			return c.IsZero(c.Zext(c.Atom("len(global nam)", intW-1), intW))
+			return c.IsZero(c.Zext(c.Atom("len(flag -nam)", intW-1), intW))
 		}},
 	} {
 		cas := runCommand(cx, casPkg, variant.assume)
@@ -299,16 +479,13 @@ func c19(cx *Ctx, r *ev.Report) {
 			c := rs.c
 			rs.consts(header...)
 			rs.consts(0xd0, 0xd0, 0xd0, 0xd0, 0xd0, 0xd0, 0xd0, 0xd0, 0xd0, 0xd0)
-			nlen := c.Zext(c.Atom("len(global "+src+")", intW-1), intW)
-			var args []dom.BV
+			nlen := c.Zext(c.Atom("len(flag -"+src+")", intW-1), intW)
 			for i := 0; i < 6; i++ {
 				in := c.Slt(c.Const(intW, uint64(i)), nlen)
-				args = append(args, c.Mux(in, c.Atom(fmt.Sprintf("Init(global %s[%d])", src, i), 8), c.Const(8, 0x20)))
+				rs.b(c.Mux(in, c.Atom(fmt.Sprintf("Init(flag -%s[%d])", src, i), 8), c.Const(8, 0x20)))
 			}
-			rs.tr.Emit(rs.g, "out.write[6]", "w", args, 0, "ref")
-			rs.after("Write")
 			rs.consts(header...)
-			rs.tail(intW)
+			rs.tail(intW, uintW)
 		}, posOf(casPkg))
 	}
 	// the constant tables have no writer outside package initialisation
